@@ -23,6 +23,7 @@ def _panic(st, msg):
     return [Outcome(st, "panic", msg)]
 
 
+INT_NAMES = {"usize", "u8", "u16", "u32", "u64", "i8", "i16", "i32", "i64", "isize"}
 NUMERIC_T = {"Quantity", "f64", "f32", "usize", "u8", "u16", "u32", "u64", "i8", "i16", "i32", "i64", "isize", "bool", "u128", "i128"}
 
 # uom unit -> coefficient to the SI base unit (exactly the f64 uom uses)
@@ -265,6 +266,8 @@ def dispatch(eng, st, body, callee, args):
         return _o(st, Opaque(meth))
     if T == "Arguments" and meth == "new":
         return _o(st, Opaque("fmt::Arguments"))
+    if meth == "__dispatch_ensure" or Tr in ("BothDebug", "NotBothDebug"):
+        return _o(st, mk_err())
     if T == "Adhoc" and meth == "new":
         return _o(st, mk_err())
     if T == "__private" and meth == "not":
@@ -303,7 +306,7 @@ def dispatch(eng, st, body, callee, args):
 
     # ---- Option / Result
     if T in ("Option", "Result") and Tr is None:
-        r = option_result(eng, st, T, meth, args)
+        r = option_result(eng, st, T, meth, args, callee)
         if r is not None:
             return r
     if T in ("Option", "Result") and Tr == "Clone" and meth == "clone":
@@ -525,7 +528,7 @@ def float_method(eng, st, meth, args, gen):
 # ---------------------------------------------------------------- Option / Result
 
 
-def option_result(eng, st, T, meth, args):
+def option_result(eng, st, T, meth, args, callee=""):
     from engine import Outcome
     v = args[0] if args else None
     some = 1 if T == "Option" else 0  # variant index that carries the success value
@@ -540,7 +543,15 @@ def option_result(eng, st, T, meth, args):
     if meth in ("unwrap_or_default",):
         if v.variant == some:
             return _o(st, v.fields[0])
-        raise Unsupported("unwrap_or_default None")
+        m = re.search(r"(?:Option|Result)::<\s*([^,]*?)(?:<|>|,)", callee)
+        inner = m.group(1).strip() if m else ""
+        if inner.endswith("Quantity") or inner in ("f64", "f32"):
+            return _o(st, eng.flt(0.0))
+        if inner in INT_NAMES:
+            return _o(st, 0)
+        if inner == "bool":
+            return _o(st, False)
+        raise Unsupported("unwrap_or_default None of " + inner)
     if meth in ("unwrap_or_else",):
         if v.variant == some:
             return _o(st, v.fields[0])
